@@ -30,7 +30,7 @@ Items ==
   { [k |-> "text", s |-> t] : t \in Texts }
   \cup { [k |-> "dq", s |-> c] : c \in {x \in Contents : DQOK(x)} }
   \cup { [k |-> "bq", s |-> c] : c \in {x \in Contents : BQOK(x)} }
-  \cup { [k |-> o, s |-> <<>>] : o \in {"num", "var", "silentexpr", "silentstr", "let", "assign", "silentif", "silentfor", "comment", "silentraw", "silentcall"} }
+  \cup { [k |-> o, s |-> <<>>] : o \in {"num", "var", "silentexpr", "silentstr", "let", "assign", "silentif", "silentfor", "comment", "silentraw", "silentcall", "fnout", "silentfn"} }
 
 \* the statement(s) an item stands for, and what it contributes to the output
 ItemStmts(it) ==
@@ -48,12 +48,16 @@ ItemStmts(it) ==
     [] it.k = "comment"    -> <<Cmt(<<"n", "o", "t", "e">>)>>
     [] it.k = "silentraw"  -> <<Code(Call("raw", <<Str(<<"<", "b", ">">>)>>))>>
     [] it.k = "silentcall" -> <<Code(Call("id", <<Str(<<"x">>)>>))>>
+    \* a template function whose return is reached inside an if of its body: emitted / called silently
+    [] it.k = "fnout"      -> <<Emit(Call("pick", <<IntL(1)>>))>>
+    [] it.k = "silentfn"   -> <<Code(Call("pick", <<IntL(1)>>))>>
 \* contribution according to the statement of C02 (w is "W" once an assign item has run)
 ItemOut(it, assigned) ==
   CASE it.k = "text" -> it.s
     [] it.k \in {"dq", "bq"} -> it.s
     [] it.k = "num"  -> <<"4", "2">>
     [] it.k = "var"  -> IF assigned THEN <<"W">> ELSE <<"w">>
+    [] it.k = "fnout" -> <<"o", "n", "e">>
     [] OTHER -> <<>>
 
 Places == {"top", "if", "for", "fn", "blk"}
@@ -69,12 +73,15 @@ vars == <<items, place, res>>
 Data == [w |-> S(<<"w">>)]
 
 Stmts == Flat([i \in 1..Len(items) |-> ItemStmts(items[i])])
+Pick == Let("pick", FnLit(<<"n">>, <<Code(If(Bin("==", Id("n"), IntL(1)), <<Ret(Str(<<"o", "n", "e">>))>>)), Ret(Str(<<"o", "t", "h", "e", "r">>))>>))
+UsesPick == \E i \in 1..Len(items) : items[i].k \in {"fnout", "silentfn"}
+Whole(pl) == (IF UsesPick THEN <<Pick>> ELSE <<>>) \o Place(pl, Stmts)
 Init == items = <<>> /\ place = "none" /\ res = [k |-> "none"]
 AddItem == /\ place = "none" /\ Len(items) < MaxItems
            /\ \E it \in Items : items' = Append(items, it)
            /\ UNCHANGED <<place, res>>
 Finish == /\ place = "none" /\ Len(items) >= 1
-          /\ \E pl \in Places : place' = pl /\ res' = Run(Place(pl, Stmts), WithHelpers(Data), EmptyScope, "")
+          /\ \E pl \in Places : place' = pl /\ res' = Run(Whole(pl), WithHelpers(Data), EmptyScope, "")
           /\ UNCHANGED items
 Next == AddItem \/ Finish
 Spec == Init /\ [][Next]_vars
@@ -94,6 +101,6 @@ RECURSIVE Kinds(_)
 Kinds(its) == IF its = <<>> THEN "" ELSE Head(its).k \o "," \o Kinds(Tail(its))
 
 EmitCase == res.k = "none" \/
-            PrintT("CASE " \o ToJson([gen |-> "GenText", src |-> Unparse(Place(place, Stmts)), data |-> Data,
+            PrintT("CASE " \o ToJson([gen |-> "GenText", src |-> Unparse(Whole(place)), data |-> Data,
                                        shape |-> place \o ":" \o Kinds(items), expect |-> Expect(res)]))
 =============================================================================
